@@ -460,3 +460,6 @@ def run(ctx):
     from . import C06
     C06.r1b_path_sites(ctx, 'C03.R10')  # credit queued for a WINDOW_UPDATE is announced: the releaser wakes the connection task
     boundaries.check_amounts(ctx, 'C03.RA', 'C03')
+    from .. import errdisc
+    errdisc.check(ctx, 'C03.RD', 'C03', 46)
+    boundaries.check_stream_new(ctx, 'C03.RN')
